@@ -289,6 +289,8 @@ def validate_traces(
 
     if not traces:
         return TraceVerdicts(0, 0, [], 0, 0, 0.0)
+    if len({t["tid"] for t in traces}) != len(traces):
+        raise MachineryError("duplicate trace ids in a batch for %s" % trace_module)
     jvms = max(1, min(jvms, len(traces)))
     chunks = [traces[i::jvms] for i in range(jvms)]
     # the monitor runs in its own directory (one per batch, so that batches with different
